@@ -13,6 +13,8 @@ if os.path.exists(os.path.join(vlib.COQ, 'Properties', 'Properties_C15_routes.v'
     ctx2 = vlib.Ctx('C15'); ctx2.tier = ctx.tier; ctx2.seed = ctx.seed
     vlib.proof_phase(ctx2, module='Properties_C15_routes')
     ctx.obligations += ctx2.obligations; ctx.discharged += ctx2.discharged; ctx.axioms.update(ctx2.axioms); ctx.broken += ctx2.broken
+    # the same, on the constructor and final() as translated from core.hpp on this run (Gen/GenVptr.v)
+    vlib.proof_phase_extra(ctx, 'Properties_C09_source')
     try:
         mod = importlib.import_module('C15_routes')
         routes_cov = mod.run(ctx)
